@@ -1,5 +1,5 @@
 """Location histories: generators, execution on both sides, canonical comparison."""
-import json, re, time, copy
+import json, re, re, time, copy
 from vlib import *
 import gen
 
@@ -80,6 +80,17 @@ def py_subst(t, bs, dflt="undefined"):
             if dflt is None:
                 raise KeyError(t)
             return dflt
+        if "?" in t:
+            # text mixed with variables: every whole token `?` + word characters that names a bound scalar is replaced by its text
+            def tok(m):
+                v = bs.get(m.group(0), m)
+                if v is m: return m.group(0)
+                if isinstance(v, str): return v
+                if v is None: return "null"
+                if isinstance(v, bool): return "true" if v else "false"
+                if isinstance(v, (int, float)): return json.dumps(v)
+                raise KeyError("structured value inside a string")
+            return re.sub(r"\?[0-9A-Za-z_]*", tok, t)
         return t
     if isinstance(t, list):
         return [py_subst(x, bs, dflt) for x in t]
